@@ -34,7 +34,7 @@ def split_url(url: str) -> SplitURLType:
 
     scheme = netloc = query = fragment = ""
     i = url.find(":")
-    if i > 0 and url[0] in scheme_chars:
+    if i > 0 and url[0].isascii() and url[0].isalpha():
         for c in url[1:i]:
             if c not in scheme_chars:
                 break
